@@ -250,10 +250,8 @@ def check_es(rs: dict) -> tuple[list[tuple[str, str, str, Any]], dict]:
         if name == "Jump":
             if pos in tm.transfer_positions:
                 continue
-            if at:
-                out.append((CONTRACT_P, "es:jump-entry-but-no-jump-statement-printed", f"Jump@{off} -> {pos}: there starts {at}, which is not a jump/continue/break statement", text))
-            else:
-                out.append((CONTRACT_P, f"es:jump-entry-points-at-no-statement({_where(lines, pos)})", f"Jump@{off} -> {pos}: {_line(lines, pos)!r}", text))
+            here = at if at else _where(lines, pos)
+            out.append((CONTRACT_P, "es:jump-entry-but-no-jump-statement-printed", f"Jump@{off} -> {pos}: there is {here} ({_line(lines, pos)!r}), not a jump/continue/break statement", text))
             continue
         lab = op_label(op)
         cands = tm.by_label.get(lab, [])
@@ -277,8 +275,7 @@ def check_es(rs: dict) -> tuple[list[tuple[str, str, str, Any]], dict]:
         elif cands:
             what = ",".join(sorted({e["what"] for e in cands}))
             there = _kinds(at) if at else _where(lines, pos)
-            rel = "later-line" if all(pos[0] > p[0] for p in own) else ("earlier-line" if all(pos[0] < p[0] for p in own) else delta_class(pos, own))
-            out.append((CONTRACT_P, f"es:entry-misses-its-statement:{rel}:points-at({there})", f"{name}@{off} -> {pos} but its statement ({what}) starts at {own}; at {pos}: {at or _line(lines, pos)!r}", text))
+            out.append((CONTRACT_P, f"es:entry-misses-its-statement:points-at({there})", f"{name}@{off} -> {pos} ({delta_class(pos, own)}) but its statement ({what}) starts at {own}; at {pos}: {at or _line(lines, pos)!r}", text))
         else:
             if at:
                 out.append((CONTRACT_P, f"es:entry-of-op-that-is-not-printed-points-at({_kinds(at)}):{fam}", f"{name}@{off} -> {pos}: no statement of the text denotes this op; there starts {at}", text))
